@@ -35,8 +35,11 @@ PLACEMENTS = {
     "single-pair": (M.HSingle, None, lambda ns: ns is None),
     # mixed content in which one child is bound to a typed model (located by name) that has its own wildcard
     "mixed-typed-child": (M.HMixed, None, lambda ns: True),
+    # mixed content in which one child is a simple typed field of the holder itself, with text behind it
+    "mixed-primitive-child": (M.HMixedTyped, None, lambda ns: True),
 }
 WRAPPERS = {
+    "mixed-primitive-child": lambda frag: f"<holder>lead<flag>true</flag>TAIL{frag}end</holder>",
     "single-pair": lambda frag: f"<holder>{frag}<zz k=\"1\"/></holder>",
     "mixed-typed-child": lambda frag: f"<holder>lead<note lang=\"en\">{frag}</note>TAIL<b/>end</holder>",
 }
